@@ -29,7 +29,7 @@ EXPLANATION = (
     'until hasStopAck, the quit path polls until hasQuitAck; (6) after the inner wait loop of doSearch the engine thread either '
     're-notifies itself or handles pending options before it can sleep again.'
     ' (7) completion-flag typestate of optionsSetFinished; waits written with the predicate overload are modelled like predicate loops.'
-    ' Added later; (10) every function that waits for has<X>Ack() polls with a handler whose <x>Ack callback calls send<X>Ack. (11) startSearch and ponderHit compute `infinite` from the same conjuncts. (12) a blocking wait of the protocol thread on the engine thread (waitStop / waitOptionsSet) is reached only with both hold flags cleared or when no search object exists: no circular wait with the engine thread\'s `while (*ponder || *infinite)`. (13) createWorkers returns only after every helper it constructed - new slot or replaced slot - has signalled initialized. (14) = C09.9 the waits the hand-shakes are built on do not time out silently.')
+    ' Added later; (10) every function that waits for has<X>Ack() polls with a handler whose <x>Ack callback calls send<X>Ack. (11) startSearch and ponderHit compute `infinite` from the same conjuncts. (12) a blocking wait of the protocol thread on the engine thread (waitStop / waitOptionsSet) is reached only with both hold flags cleared or when no search object exists: no circular wait with the engine thread\'s `while (*ponder || *infinite)`. (13) createWorkers returns only after every helper it constructed - new slot or replaced slot - has signalled initialized. (14) = C09.9 the waits the hand-shakes are built on do not time out silently. (15) Communicator::poll removes the command it has read before it releases the queue mutex.')
 UNDECIDED = ('absence of deadlock or lost wake-up over all interleavings of the composed protocol (a liveness property: model '
              'checking territory, a different technique family); fairness of the OS scheduler.')
 ASSUMPTIONS = ['std::condition_variable / std::mutex semantics of the C++ standard',
@@ -59,6 +59,7 @@ def run(fb, rep, tier):
     # .14 the waits the hand-shakes are built on do not time out silently (shared with C09.9)
     from . import C09
     C09.c9_hand_over_waits_are_unbounded(fb, rep, 'C10.14')
+    c15_peek_and_pop_together(fb, rep)
 
 
 # ----------------------------------------------------------------------------- .1
@@ -525,8 +526,7 @@ def c4_jobid(fb, rep):
 
 # ----------------------------------------------------------------------------- .5
 
-def c5_loops(fb, rep):
-    clause = 'C10.5'
+def c5_loops(fb, rep, clause='C10.5'):
     ml = fb.find1('WorkerThread::mainLoop')
     if rep.need(clause, ml, 'WorkerThread::mainLoop'):
         waits = R.calls_in(ml, 'Notifier::wait')
@@ -1170,3 +1170,26 @@ def c13_new_workers_awaited(fb, rep, clause='C10.13'):
         detail.append('%s:%s %s' % (f.file, ce.get('ln'), 'awaited' if covered else 'NOT awaited'))
     rep.ob(clause, 'K2 must-pass-through', 'createWorkers returns only after every helper it constructed (new slot or replaced slot) has signalled initialized', ok_all,
            R.site(f, cons[0][2]), '; '.join(detail), f.sname)
+
+
+# ----------------------------------------------------------------------------- .15
+
+def c15_peek_and_pop_together(fb, rep, clause='C10.15'):
+    """K6 the command queue is compacted by its senders: doSendStartSearch / doSendStopSearch erase queued START / STOP / REPORT
+    commands before they append their own, under the queue mutex.  The receiver must therefore take a command *out of* the
+    queue in the same critical section in which it looked at it: if it only peeks, unlocks for the handler and pops
+    later, the sender may erase the in-flight entry and the late pop removes the command that replaced it - a STOP that is
+    never seen, a handshake that never completes.  In Communicator::poll no release of the mutex lies between the read
+    of cmdQueue.front() and cmdQueue.pop_front()."""
+    f = fb.find1('Communicator::poll')
+    if rep.need(clause, f, 'Communicator::poll') is None:
+        return
+    isq = lambda e, m: e is not None and e.get('k') == 'call' and cname(e).split('::')[-1] == m and (ap(e.get('recv')) or '').endswith('cmdQueue')
+    fronts = [(b, i, e) for b, i, e in f.events() if isq(e, 'front')]
+    pops = [(b, i, e) for b, i, e in f.events() if isq(e, 'pop_front')]
+    rep.floor(clause, 'reads of the queue head in Communicator::poll', len(fronts), 1)
+    rep.floor(clause, 'removals of the queue head in Communicator::poll', len(pops), 1)
+    unlock = lambda e: e is not None and e.get('k') == 'call' and cname(e).split('::')[-1] == 'unlock'
+    bad = [(b, i, e) for b, i, e in fronts if f.path_avoiding((b, i), unlock, lambda x: isq(x, 'pop_front')) is not None]
+    rep.ob(clause, 'K6 lock discipline', 'Communicator::poll removes the command it has read before it releases the queue mutex', not bad,
+           R.site(f, bad[0][2]) if bad else f.where, '%d read(s) of the head, %d followed by an unlock before the pop' % (len(fronts), len(bad)), f.sname)
